@@ -140,4 +140,74 @@ theorem source_date_epoch_default (s : List UInt8) (h : sdeDigits s 0 = none) :
   | nil => rfl
   | cons a t => simp [sourceDateEpoch, h]
 
+/-! ### non-vacuity: the hypotheses are satisfiable on a non-trivial instance -/
+
+/-- a codec that compresses exactly one block (`7 7 7 7 ↦ 7 4`) -/
+def exCodec : Codec :=
+  { cmp := fun x => if x = [7, 7, 7, 7] then some [7, 4] else none
+    unc := fun z => if z = [7, 4] then some [7, 7, 7, 7] else some z }
+
+theorem exCodec_ok : CodecOk exCodec := by
+  constructor
+  · intro x z h
+    simp only [exCodec] at h ⊢
+    split at h
+    · simp only [Option.some.injEq] at h; subst h; rename_i hx; simp [hx]
+    · cases h
+  · intro x z h
+    simp only [exCodec] at h
+    split at h
+    · simp only [Option.some.injEq] at h; subst h; rename_i hx; simp [hx]
+    · cases h
+
+def exP : Params := { B := 4, codec := exCodec, h := fun d => d.foldl (fun a b => a * 31 + b.toUInt32) 7 }
+
+/-- six files, block size 4: multi-block files, a compressible file, a short file, a file with a hole, the first file
+again with `DONT_DEDUPLICATE` (flag 8) and once more without -/
+def exFiles : List InFile :=
+  [⟨0, [1, 2, 3, 4, 5, 6, 7, 8, 9, 10]⟩, ⟨0, [7, 7, 7, 7, 7, 7, 7, 7, 1]⟩, ⟨0, [11, 12, 13]⟩, ⟨0, [0, 0, 0, 0, 9, 10]⟩,
+   ⟨8, [1, 2, 3, 4, 5, 6, 7, 8, 9, 10]⟩, ⟨0, [1, 2, 3, 4, 5, 6, 7, 8, 9, 10]⟩]
+
+example : 0 < exP.B ∧ exP.B < 2 ^ 24 ∧ ∀ f ∈ exFiles, f.flags &&& Consts.blkUserSettable = f.flags := by decide
+
+/-- the instance is not trivial: 17 `write_data_block` calls, 3 fragment blocks (two overflows), a 28 byte data area
+(the last file's blocks were given up for the first file's), a sparse block, fragments shared between files (0 and 3; 4 and 5) -/
+example :
+    (run (serial exP) 3 exFiles).toOption.map (fun o => (o.calls.length, o.frags.length, o.file.length)) = some (17, 3, 28) ∧
+    (run (serial exP) 3 exFiles).toOption.map (fun o => o.files.map (fun r => r.start)) = some [0, 8, 0, 0, 15, 0] ∧
+    (run (serial exP) 3 exFiles).toOption.map (fun o => o.files.map (fun r => r.fragIdx)) = some [0, 0, 1, 0, 2, 2] ∧
+    (run (serial exP) 3 exFiles).toOption.map (fun o => o.files.map (fun r => r.sparse)) = some [0, 0, 0, 4, 0, 0] := by
+  decide +kernel
+
+/-- `backlog_independent` / `run_eq_spec` on the instance, evaluated: backlog 3 vs 40 vs the reference -/
+example : (run (serial exP) 3 exFiles).toOption = (run (serial exP) 40 exFiles).toOption ∧
+    (run (serial exP) 3 exFiles).toOption = (runEager (serial exP) exFiles).toOption := by
+  decide +kernel
+
+/-- the hypothesis of `finish_writes_everything` is satisfiable, and so is the error case of
+`dequeue_never_internal_error` (flag word 32 is not user settable) -/
+example : (runProc (serial exP) 3 exFiles).toOption.isSome = true ∧
+    (run (serial exP) 3 [⟨32, [1, 2, 3]⟩]).toOption = none := by
+  decide +kernel
+
+/-- `RealisedBy` is inhabited: the serial pool itself … -/
+example (n : Nat) : RealisedBy n serialAnsHist := fun _ => Or.inr rfl
+
+/-- … and real executions of the threaded pool's model: two workers, items 0 and 1, worker 1 overtakes worker 0,
+both items dequeued — the state is reachable, the main thread is idle, and the last value returned is item 1 -/
+example :
+    let cfg : Pool.Cfg := ⟨true, fun _ => 0⟩
+    let s := Pool.run cfg (Pool.init 2)
+      [.main (.call (.submit 0)), .main (.cont false), .main (.call (.submit 1)), .main (.cont false),
+       .worker 0 false, .worker 1 false, .worker 1 false, .worker 1 false, .worker 0 false, .worker 0 false,
+       .main (.call .dequeue), .main (.cont false), .main (.call .dequeue), .main (.cont false)]
+    Pool.Reachable cfg 2 s ∧ s.main = .idle ∧ s.calls = [.submit 0, .submit 1, .dequeue, .dequeue] ∧
+      s.rets.getLast? = some (.deq (some 1)) ∧ s.started.map (·.1) = [1, 0] :=
+  ⟨Sqfs.C09.run_reachable _ _ _, by decide⟩
+
+/-- two process environments that differ in everything but `SOURCE_DATE_EPOCH` -/
+example : imageTimes ⟨some [49, 50], 1700000000, [85, 84, 67], [67], 18, [47]⟩ {} [5, -1] =
+          imageTimes ⟨some [49, 50], 42, [], [], 63, []⟩ {} [5, -1] ∧
+          imageTimes ⟨some [49, 50], 42, [], [], 63, []⟩ {} [5, -1] = (12, [12, 12]) := by decide
+
 end Sqfs.C02
